@@ -81,10 +81,20 @@ StmtsC09 ==
     \cup {[k |-> "Decay", m |-> m, lines |-> ls] : m \in {"B"}, ls \in SeqsUpTo(LinesQ("B"), MaxLines)}
     \cup {[k |-> "Decay", m |-> m, lines |-> ls] : m \in {"C"}, ls \in SeqsUpTo(LinesQ("C"), MaxLines)}
     \cup {[k |-> "Alias", m |-> "B", src |-> "Br"], [k |-> "Alias", m |-> "C", src |-> "Cr"],
-          [k |-> "Alias", m |-> "x", src |-> "xr"]}
+          [k |-> "Alias", m |-> "x", src |-> "xr"], [k |-> "Alias", m |-> "C", src |-> "Br"]}
 
-Stmts == CASE Profile = "C09" -> StmtsC09 [] Profile = "C01" -> StmtsC01 [] Profile = "C03" -> StmtsC03 [] Profile = "C05" -> StmtsC05
-Base  == CASE Profile = "C09" -> BaseC01 [] Profile = "C01" -> BaseC01  [] Profile = "C03" -> BaseC03  [] Profile = "C05" -> BaseC05
+\* the same universe with a fixed file layout (every combination of alias statements and
+\* of a block - possibly absent, possibly empty - for each of A, B, C): deeper than
+\* sequences of MaxStmts arbitrary statements
+AliasQ == <<[k |-> "Alias", m |-> "B", src |-> "Br"], [k |-> "Alias", m |-> "C", src |-> "Cr"],
+            [k |-> "Alias", m |-> "x", src |-> "xr"], [k |-> "Alias", m |-> "C", src |-> "Br"]>>
+BlockQ(m) == {<<>>} \cup {<<[k |-> "Decay", m |-> m, lines |-> ls]>> : ls \in SeqsUpTo(LinesQ(m), MaxLines)}
+FilesQ ==
+    {SelectSeq(AliasQ, LAMBDA a : a \in A) \o bc \o bb \o ba :
+        A \in SUBSET RangeOf(AliasQ), ba \in BlockQ("A") \ {<<>>}, bb \in BlockQ("B"), bc \in BlockQ("C")}
+
+Stmts == CASE Profile \in {"C09", "C10"} -> StmtsC09 [] Profile = "C01" -> StmtsC01 [] Profile = "C03" -> StmtsC03 [] Profile = "C05" -> StmtsC05
+Base  == CASE Profile \in {"C09", "C10"} -> BaseC01 [] Profile = "C01" -> BaseC01  [] Profile = "C03" -> BaseC03  [] Profile = "C05" -> BaseC05
 
 \* well-formedness = the quantifier of the properties
 AtMostOneCDecayEach(f) ==
@@ -98,7 +108,8 @@ WF(f) == AtMostOneCDecayEach(f) /\ CopyTargetsFresh(f)
 
 Init ==
     /\ IF Build THEN src = <<>> /\ phase = "build"
-                ELSE src \in {f \in SeqsUpTo(Stmts, MaxStmts) : WF(f)} /\ phase = "new"
+       ELSE IF Profile = "C10" THEN src \in FilesQ /\ phase = "new"
+       ELSE src \in {f \in SeqsUpTo(Stmts, MaxStmts) : WF(f)} /\ phase = "new"
     /\ incl \in (IF Profile = "C03" THEN BOOLEAN ELSE {TRUE})
     /\ tables = <<>>
 
@@ -198,7 +209,7 @@ ConjInvolution ==
 \* C09 / C10 lemmas on the unfolding operators
 AllNamesQ == {"A", "B", "C", "x", "y"}
 C09_Lemmas ==
-    (Profile = "C09" /\ phase = "ready") =>
+    (Profile \in {"C09", "C10"} /\ phase = "ready") =>
         \A i \in DOMAIN tables :
             LET m == tables[i].m IN
             /\ Acyclic(tables, {})
@@ -216,12 +227,12 @@ C09_Lemmas ==
                             k.dec <=> (HasTable(tables, k.n) /\ k.n \notin S)
 \* C10: the enumeration of choices has exactly the size given by the counting recursion
 C10_Count ==
-    (Profile = "C09" /\ phase = "ready") =>
+    (Profile \in {"C09", "C10"} /\ phase = "ready") =>
         \A i \in DOMAIN tables :
             Cardinality(PathChoices(src, tables, tables[i].m)) = NPaths(tables, tables[i].m)
 
 \* reachability companions (expected to be violated)
-NeverNested == ~(Profile = "C09" /\ phase = "ready" /\
+NeverNested == ~(Profile \in {"C09", "C10"} /\ phase = "ready" /\
                   \E i \in DOMAIN tables : \E j \in DOMAIN tables[i].lines :
                      \E q \in DOMAIN tables[i].lines[j].ds : Decays(tables, tables[i].lines[j].ds[q]))
 NeverFails == phase # "failed"
